@@ -36,3 +36,15 @@ package fdpool
 //gvc:  monitor p invariant registered: pool_registered()
 //gvc:  monitor p invariant back: pool_back()
 //gvc:end
+
+// A pool either evicts (capacity > 0) or is the documented no-op pool
+// (capacity <= 0: Touch and Forget do nothing, nothing is ever evicted).
+// capacity is written by New only, so "this pool evicts" is a constant of the
+// Pool (#enabled). Stats reports the configured capacity (trusted: a snapshot
+// of fields under the pool's lock).
+//gvc:ghost Pool.enabled bool
+
+//gvc:func (*Pool).Stats
+//gvc:  trusted
+//gvc:  ensures cap: (result.Capacity > 0) == p.#enabled
+//gvc:end
